@@ -1,7 +1,7 @@
 #!/bin/bash
 # tools/try_patch.sh <patch.diff> <ID> [ID...] : apply a patch to /repo, run the quick checks, always restore /repo.
 # Prints one line per check: <ID> exit=<code> <first line>. Evidence files are restored afterwards.
-P="$1"; shift
+P="$(realpath "$1")"; shift
 cd /repo || exit 2
 if ! git diff --quiet; then echo "/repo has uncommitted changes"; exit 2; fi
 git apply "$P" || { echo "patch does not apply"; exit 2; }
